@@ -9,6 +9,10 @@ PROP = "C03"
 def run(tier: str, seed: int) -> int:
     n = K.N_QUICK if tier == "quick" else K.N_THOROUGH
     cases = gen_cases(PROP, n, seed, K.MONITORS, K.features, **K.COMMON)
+    # corpus first: runs in which a rejected pair is immediately followed by a failed line search and a memory reset (what is kept at the
+    # reset decides from where the run goes on), and fresh seeds of that family
+    from harness.gen import reset_corpus_cases
+    cases = reset_corpus_cases(K.MONITORS, [seed * 1_000_003 + 800_000 + i for i in range(n // 12)]) + cases
     return run_property(PROP, "harness.props.c03", K.THEOREMS, K.MODULES, cases, tier, seed,
                         rule=K.RULE, assumptions=K.ASSUMPTIONS)
 
